@@ -4,6 +4,7 @@
   Linear / Cubic ≡ SciPy's interpolators is a differential test only (external algorithm): no theorem.
 -/
 import VerdeModel.Gen.Loops
+import VerdeModel.Gen.Predict
 import VerdeModel.Lemmas.PReal
 import VerdeModel.Gen.Kernels
 import VerdeModel.Model.LinAlg
@@ -329,6 +330,24 @@ theorem gen_predict_2d_numpy_eq_model (e n : α) (fe fn f1 f2 : List α) (mindis
   calc _ = List.foldl G ([lit 0], [lit 0]) ((List.range f1.length).map (fun j => ((fe.getD j (lit 0), fn.getD j (lit 0)), ((f1 ++ f2).getD j (lit 0), (f1 ++ f2).getD (j + f1.length) (lit 0))))) :=
         List.foldl_map.symm
     _ = _ := by rw [hX]; exact foldl_pair_singleton _ _ _ _ _
+/-- **Bridge.**  `Spline.predict` as regenerated from the source: the fitted force positions are unpacked as (east, north), only the first two query
+    arrays are used, and the value at a point is the model's sum over the forces with `self.mindist` and `self.force_`. -/
+theorem gen_spline_predict_eq_model (e n : α) (fe fn forces : List α) (frest crest : List (List α)) (mindist : α)
+    (h1 : fe.length = forces.length) (h2 : fn.length = forces.length) :
+    Gen.splinePredict (fe :: fn :: frest) mindist forces ([e] :: [n] :: crest) = splinePredict [(e, n)] (fe.zip fn) mindist forces := by
+  unfold Gen.splinePredict
+  simp only [List.getD_cons_zero, List.getD_cons_succ]
+  exact gen_predict_numpy_eq_model e n fe fn forces mindist h1 h2
+
+/-- **Bridge.**  `VectorSpline2D.predict` as regenerated from the source equals the model: east component first, coupled through `self.poisson`. -/
+theorem gen_vector_spline_predict_eq_model (e n : α) (fe fn f1 f2 : List α) (frest crest : List (List α)) (mindist poisson : α)
+    (h1 : fe.length = f1.length) (h2 : fn.length = f1.length) (h3 : f2.length = f1.length) :
+    Gen.vectorSplinePredict (fe :: fn :: frest) mindist poisson (f1 ++ f2) ([e] :: [n] :: crest)
+      = ((vectorPredict [(e, n)] (fe.zip fn) mindist poisson f1 f2).map (·.1), (vectorPredict [(e, n)] (fe.zip fn) mindist poisson f1 f2).map (·.2)) := by
+  unfold Gen.vectorSplinePredict
+  simp only [List.getD_cons_zero, List.getD_cons_succ]
+  exact gen_predict_2d_numpy_eq_model e n fe fn f1 f2 mindist poisson h1 h2 h3
+
 end Loops
 
 end Verde.C03
